@@ -1,17 +1,19 @@
 (* TotalityV4.v — C04 for the LEGACY root package (ImplV4: patch.go at the repository root, v4 API).
 
-   Finding.  The legacy DecodePatch validates nothing (api_decode4), and the legacy model DOES panic
-   on a patch that DecodePatch accepts:  [{"op":"replace","path":""}]  (replace aimed at the whole
-   document, no value member) applied to ANY document that loads (object, array or null).  In the
-   Go code this is Patch.replace: path == "" -> val := op.value() is a nil *lazyNode -> val.which
-   dereferences it (see replace_without_value_decodes_and_panics below).
-
-   Theorems.  op_ok4 (a replace with path "" has a value member) is EXACTLY the condition under
-   which one legacy operation does not panic, in every state and under every setting of the package
-   variables (step4_panics_iff); under forallb op_ok4 the whole Apply never panics, for every
-   document byte string, indent and package-variable setting (api_apply4_never_panics).
+   The legacy Apply never panics: for EVERY setting of the package variables SupportNegativeIndices /
+   AccumulatedCopySizeLimit, EVERY indent, EVERY document byte string and EVERY operation list
+   (arbitrary op names, path / from bytes, missing or null members, hand-assembled or decoded: the
+   legacy DecodePatch validates nothing, so no hypothesis on the patch may be assumed), the outcome
+   of api_apply4 is an output or an error (api_apply4_never_panics); likewise one operation in any
+   state (step4_never_panics) and the operation loop (apply4_from_never_panics).
    No state invariant is needed: a legacy partialDoc is a bare map (no key list to get out of step
-   with), so every panic producer of the container methods is excluded by arithmetic alone. *)
+   with), so every panic producer of the container methods is excluded by arithmetic alone.
+
+   History.  An earlier version of this file found that the patch  [{"op":"replace","path":""}]
+   (replace of the whole document, no value member), which the legacy DecodePatch accepts, panicked
+   on every document that loads (Patch.replace dereferenced the nil *lazyNode returned by
+   op.value()).  That was confirmed against the Go code and repaired (fix 1a7093a: ErrMissing);
+   ImplV4.step4 follows the repaired code, and formerly_panicking_inputs below records the inputs. *)
 From Coq Require Import Lia.
 From JP Require Import Bytes Json Text Strings Den Pointer ImplV5 ImplMerge ImplV4 ImplFacts.
 
@@ -110,34 +112,6 @@ Proof.
   apply find4_nopanic. intros c0 key. apply upd_nopanic. apply con4_add_nopanic.
 Qed.
 
-(* ---- the one requirement on a legacy operation ---- *)
-(* a replace aimed at the whole document (path "") carries a value member.  Nothing in the legacy
-   package checks it: DecodePatch is a bare json.Unmarshal. *)
-Definition op_ok4 (op : operation) : bool :=
-  match op_kind op with
-  | KReplace =>
-      match op_str op (B "path") with
-      | Ok [] => amem (B "value") op
-      | _ => true
-      end
-  | _ => true
-  end.
-
-(* the same condition spelled out *)
-Lemma op_not_ok4_iff op :
-  op_ok4 op = false <->
-  op_kind op = KReplace /\ op_str op (B "path") = Ok [] /\ aget (B "value") op = None.
-Proof.
-  unfold op_ok4, amem. split.
-  - destruct (op_kind op); try discriminate.
-    destruct (op_str op (B "path")) as [[|b path]| |]; try discriminate.
-    destruct (aget (B "value") op); [discriminate|]. auto.
-  - intros [K [P V]]. rewrite K, P, V. reflexivity.
-Qed.
-
-Lemma op_value4_amem op : amem (B "value") op = true -> exists v, op_value4 op = Some v.
-Proof. unfold amem, op_value4. destruct (aget (B "value") op) as [[t|]|]; eauto. discriminate. Qed.
-
 (* ---- one operation ---- *)
 Lemma step4_add_safe g st op : op_kind op = KAdd -> step4 g st op <> Panic.
 Proof.
@@ -154,13 +128,15 @@ Proof.
   apply find4_nopanic. intros c0 key. apply upd_nopanic. apply con4_remove_nopanic.
 Qed.
 
-Lemma step4_replace_safe g st op : op_ok4 op = true -> op_kind op = KReplace -> step4 g st op <> Panic.
+(* replace of the whole document: every shape of the value member, including its absence, is an
+   outcome or an error; elsewhere the unchecked partialArray.set runs only after a successful get *)
+Lemma step4_replace_safe g st op : op_kind op = KReplace -> step4 g st op <> Panic.
 Proof.
-  intros OK K. unfold op_ok4 in OK. rewrite K in OK. unfold step4. rewrite K.
+  intro K. unfold step4. rewrite K.
   pose proof (op_str_nopanic4 op (B "path")) as NPp.
   destruct (op_str op (B "path")) as [path| |]; [|discriminate|congruence].
   destruct path as [|b path].
-  - apply op_value4_amem in OK as [v E]. rewrite E.
+  - destruct (op_value4 op) as [v|]; [|discriminate].
     destruct v as [|t|ks obj|ns]; try discriminate. destruct t; discriminate.
   - apply lift4_nopanic; [|intros a c0; discriminate].
     apply find4_nopanic. intros c0 key.
@@ -218,9 +194,10 @@ Proof.
       destruct (node_equal4 x ov); discriminate.
 Qed.
 
-Theorem step4_never_panics g st op : op_ok4 op = true -> step4 g st op <> Panic.
+(* every operation (any member list whatsoever), every state, every setting *)
+Theorem step4_never_panics g st op : step4 g st op <> Panic.
 Proof.
-  intro OK. destruct (op_kind op) eqn:K.
+  destruct (op_kind op) eqn:K.
   - now apply step4_add_safe.
   - now apply step4_remove_safe.
   - now apply step4_replace_safe.
@@ -230,136 +207,78 @@ Proof.
   - unfold step4. rewrite K. discriminate.
 Qed.
 
-(* conversely: an operation violating op_ok4 panics in every state, under every setting *)
-Theorem op_not_ok4_panics g st op : op_ok4 op = false -> step4 g st op = Panic.
-Proof.
-  intro NOK. apply op_not_ok4_iff in NOK as [K [P V]].
-  unfold step4. rewrite K, P. unfold op_value4. rewrite V. reflexivity.
-Qed.
-
-(* op_ok4 is exactly the panic condition of a single legacy operation *)
-Theorem step4_panics_iff g st op : step4 g st op = Panic <-> op_ok4 op = false.
-Proof.
-  split; [|apply op_not_ok4_panics].
-  intro H. destruct (op_ok4 op) eqn:OK; [|reflexivity].
-  exfalso. exact (step4_never_panics g st op OK H).
-Qed.
-
 (* ---- the whole patch ---- *)
-Theorem apply4_from_never_panics g : forall p i st,
-  forallb op_ok4 p = true -> fst (apply4_from g i st p) <> Panic.
+Theorem apply4_from_never_panics g : forall p i st, fst (apply4_from g i st p) <> Panic.
 Proof.
-  induction p as [|op p IH]; intros i st OK; cbn [apply4_from]; [cbn [fst]; discriminate|].
-  cbn [forallb] in OK. apply andb_true_iff in OK as [OK1 OK2].
-  pose proof (step4_never_panics g st op OK1) as NP.
+  induction p as [|op p IH]; intros i st; cbn [apply4_from]; [cbn [fst]; discriminate|].
+  pose proof (step4_never_panics g st op) as NP.
   destruct (step4 g st op) as [st'|e|]; [|cbn [fst]; discriminate|congruence].
-  apply IH; exact OK2.
+  apply IH.
 Qed.
 
-(* the main theorem: every setting of SupportNegativeIndices / AccumulatedCopySizeLimit, every
-   indent, every document byte string, every operation list (arbitrary op names, path / from bytes,
-   missing or null members) in which a replace of the whole document has a value *)
-Theorem api_apply4_never_panics g indent p doc :
-  forallb op_ok4 p = true -> api_apply4 g indent p doc <> Panic4.
+(* the main theorem, unconditional: every setting of SupportNegativeIndices /
+   AccumulatedCopySizeLimit, every indent, every document byte string, every operation list *)
+Theorem api_apply4_never_panics g indent p doc : api_apply4 g indent p doc <> Panic4.
 Proof.
-  intro OK. unfold api_apply4. destruct doc as [|b doc]; [discriminate|].
+  unfold api_apply4. destruct doc as [|b doc]; [discriminate|].
   destruct (parse (b :: doc)) as [t|]; [|discriminate].
   match goal with |- match ?s with Some _ => _ | None => _ end <> _ => destruct s as [c|] end; [|discriminate].
-  pose proof (apply4_from_never_panics g p 0%nat (mkState4 c 0) OK) as AP.
+  pose proof (apply4_from_never_panics g p 0%nat (mkState4 c 0)) as AP.
   destruct (apply4_from g 0 (mkState4 c 0) p) as [[st|e|] i]; cbn [fst] in AP; try discriminate. congruence.
 Qed.
 
-(* a panic of Apply is always caused by a replace of the whole document without value *)
-Corollary api_apply4_panic_inv g indent p doc :
-  api_apply4 g indent p doc = Panic4 ->
-  exists op, In op p /\ op_kind op = KReplace /\ op_str op (B "path") = Ok [] /\ aget (B "value") op = None.
+(* the outcome is always an output or an error *)
+Corollary api_apply4_total g indent p doc :
+  (exists out, api_apply4 g indent p doc = Out4 out) \/ (exists i e, api_apply4 g indent p doc = Err4 i e).
 Proof.
-  intro H. destruct (forallb op_ok4 p) eqn:F.
-  - exfalso. exact (api_apply4_never_panics g indent p doc F H).
-  - assert (E : exists op, In op p /\ op_ok4 op = false).
-    { clear H. induction p as [|op p IH]; [discriminate|]. cbn [forallb] in F.
-      destruct (op_ok4 op) eqn:O.
-      - simpl in F. destruct (IH F) as [x [I X]]. exists x. split; [now right | exact X].
-      - exists op. split; [now left | exact O]. }
-    destruct E as [op [I X]]. exists op. split; [exact I|]. now apply op_not_ok4_iff.
+  pose proof (api_apply4_never_panics g indent p doc) as NP.
+  destruct (api_apply4 g indent p doc) as [out|i e|]; [left; eauto | right; eauto | congruence].
 Qed.
 
-(* which documents reach the operations: objects, arrays and null *)
-Definition loads4 (t : tjson) : bool :=
-  match t with TObj _ | TArr _ | TNull => true | _ => false end.
+(* DecodePatch then Apply / ApplyIndent: all byte strings on both sides *)
+Corollary decode4_apply4_never_panics g indent patch doc p :
+  api_decode4 patch = Some p -> api_apply4 g indent p doc <> Panic4.
+Proof. intros _. apply api_apply4_never_panics. Qed.
 
-Lemma apply4_from_app g : forall pre i st st' j rest,
-  apply4_from g i st pre = (Ok st', j) -> apply4_from g i st (pre ++ rest) = apply4_from g j st' rest.
-Proof.
-  induction pre as [|op pre IH]; intros i st st' j rest H; cbn [apply4_from app] in *.
-  - inversion H; subst. reflexivity.
-  - destruct (step4 g st op) as [st1|e|]; try discriminate. eapply IH; eauto.
-Qed.
-
-(* conversely, for the whole Apply: if the operations before a not-ok operation succeed, Apply
-   panics; so op_ok4 is the weakest condition on the patch alone, up to operations never reached *)
-Theorem api_apply4_panics_on_not_ok g indent pre op rest doc t st' j :
-  doc <> [] -> parse doc = Some t -> loads4 t = true ->
-  (forall c, apply4_from g 0 (mkState4 c 0) pre = (Ok (st' c), j)) ->
-  op_ok4 op = false ->
-  api_apply4 g indent (pre ++ op :: rest) doc = Panic4.
-Proof.
-  intros NE P L PRE NOK. unfold api_apply4. destruct doc as [|b doc]; [congruence|]. rewrite P.
-  destruct t; try discriminate; cbv iota;
-    rewrite (apply4_from_app g pre 0%nat _ _ j (op :: rest) (PRE _)); cbn [apply4_from];
-    rewrite (op_not_ok4_panics g _ op NOK); reflexivity.
-Qed.
-
-Corollary api_apply4_panics_on_first_not_ok g indent op rest doc t :
-  doc <> [] -> parse doc = Some t -> loads4 t = true -> op_ok4 op = false ->
-  api_apply4 g indent (op :: rest) doc = Panic4.
-Proof.
-  intros NE P L NOK.
-  apply (api_apply4_panics_on_not_ok g indent [] op rest doc t (fun c => mkState4 c 0) 0%nat); auto.
-Qed.
-
-(* ---- the legacy DecodePatch does NOT establish op_ok4: the counterexample ---- *)
-(* patch text   [{"op":"replace","path":""}]
-   documents    {}    []    null    (any document that loads)
-   settings     any (here: the defaults SupportNegativeIndices = true, AccumulatedCopySizeLimit = 0) *)
+(* ---- the inputs that panicked before fix 1a7093a ---- *)
+(* patch text   [{"op":"replace","path":""}]     (accepted by the legacy DecodePatch, rejected by v5's)
+   documents    {}    []    null    {"a":[1,2]}
+   now: the replace is reported as a missing value at operation 0 *)
 Definition bad_patch4 : bytes := B "[{""op"":""replace"",""path"":""""}]".
 
 Example replace_without_value_decodes :
   api_decode4 bad_patch4 = Some [[(B "op", Some (TStr (B "replace"))); (B "path", Some (TStr []))]].
 Proof. vm_compute. reflexivity. Qed.
 
-Example replace_without_value_decodes_and_panics :
+Example formerly_panicking_inputs :
   match api_decode4 bad_patch4 with
   | Some p =>
-      api_apply4 (mkOpts4 true 0%Z None) [] p (B "{}") = Panic4 /\
-      api_apply4 (mkOpts4 true 0%Z None) [] p (B "[]") = Panic4 /\
-      api_apply4 (mkOpts4 true 0%Z None) [] p (B "null") = Panic4 /\
-      api_apply4 (mkOpts4 false 7%Z None) (B "  ") p (B "{""a"":[1,2]}") = Panic4
+      api_apply4 (mkOpts4 true 0%Z None) [] p (B "{}") = Err4 (Some 0%nat) EMissing /\
+      api_apply4 (mkOpts4 true 0%Z None) [] p (B "[]") = Err4 (Some 0%nat) EMissing /\
+      api_apply4 (mkOpts4 true 0%Z None) [] p (B "null") = Err4 (Some 0%nat) EMissing /\
+      api_apply4 (mkOpts4 false 7%Z None) (B "  ") p (B "{""a"":[1,2]}") = Err4 (Some 0%nat) EMissing
   | None => False
   end.
 Proof. vm_compute. repeat split; reflexivity. Qed.
 
-(* the same for every document that loads, every setting and indent, and whatever follows *)
-Theorem decoded_patch_can_panic g indent doc t :
-  doc <> [] -> parse doc = Some t -> loads4 t = true ->
-  exists p, api_decode4 bad_patch4 = Some p /\ api_apply4 g indent p doc = Panic4.
-Proof.
-  intros NE P L. eexists. split; [vm_compute; reflexivity|].
-  eapply api_apply4_panics_on_first_not_ok; eauto.
-Qed.
+(* the same in every state and setting: a replace of the whole document without value is ErrMissing *)
+Theorem replace_root_without_value g st op :
+  op_kind op = KReplace -> op_str op (B "path") = Ok [] -> aget (B "value") op = None ->
+  step4 g st op = Err EMissing.
+Proof. intros K P V. unfold step4. rewrite K, P. unfold op_value4. rewrite V. reflexivity. Qed.
 
 (* the v5 DecodePatch rejects the same text *)
 Example v5_rejects_bad_patch4 : api_decode bad_patch4 = None.
 Proof. vm_compute. reflexivity. Qed.
 
-(* the neighbouring unvalidated shapes that decode and do NOT panic in the legacy package *)
+(* other unvalidated shapes that the legacy DecodePatch accepts: error or output *)
 Definition run4 (g : opts4) (patch doc : String.string) : option result4 :=
   match api_decode4 (B patch) with Some p => Some (api_apply4 g [] p (B doc)) | None => None end.
 Arguments run4 g (patch doc)%string_scope.
 
 Definition g4d : opts4 := mkOpts4 true 0%Z None.   (* the default package variables *)
 
-Example legacy_unvalidated_neighbours_do_not_panic :
+Example legacy_unvalidated_operations :
   run4 g4d "[{""op"":""add"",""path"":""""}]" "{}" = Some (Err4 (Some 0%nat) EMissing) /\
   run4 g4d "[{""op"":""replace"",""path"":"""",""value"":null}]" "{}" = Some (Err4 (Some 0%nat) EOther) /\
   run4 g4d "[{""op"":""test"",""path"":""""}]" "null" = Some (Err4 (Some 0%nat) ETestFailed) /\
@@ -372,8 +291,8 @@ Example legacy_unvalidated_neighbours_do_not_panic :
   run4 g4d "[null,{}]" "{}" = Some (Err4 (Some 0%nat) EOther).
 Proof. vm_compute. repeat split; reflexivity. Qed.
 
+Print Assumptions step4_never_panics.
+Print Assumptions apply4_from_never_panics.
 Print Assumptions api_apply4_never_panics.
-Print Assumptions step4_panics_iff.
-Print Assumptions api_apply4_panics_on_not_ok.
-Print Assumptions decoded_patch_can_panic.
-Print Assumptions api_apply4_panic_inv.
+Print Assumptions api_apply4_total.
+Print Assumptions decode4_apply4_never_panics.
